@@ -304,7 +304,7 @@ func argSrc(v *otto.Otto, a *Arg) string {
 	panic("arg kind " + a.K)
 }
 
-func encStr(s string) string { return "s:" + ox.Str(s) }
+func encStr(s string) string  { return "s:" + ox.Str(s) }
 func encNum(x float64) string { return "n:" + ox.Num(x) }
 
 // norm maps the logged form of a caught exception back to "throw:Class".
